@@ -60,10 +60,12 @@ META = {
              "generated run()/run_single_step()/phase functions", "CodeBuilder dependency graph"],
     "stub": ["user functions (fault plan: k-th call of step m raises e)", "caller history",
              "reference stepper (allowed-value sets)"],
-    "assumptions": ["ordinary exceptions only (not dagrt's control exceptions, StopIteration, GeneratorExit)",
+    "assumptions": ["exceptions other than dagrt's control exceptions, StopIteration and GeneratorExit (KeyboardInterrupt "
+                    "and a BaseException subclass included)",
                     "X3/X4 are evaluated for programs whose fault-free step is well defined"],
     "probes": ["fault_after_persistent_write", "fault_in_loop", "fault_in_guarded", "second_fault",
-               "fault_first_call", "resume_steps"],
+               "fault_first_call", "resume_steps", "interleaved_resumption",
+               "fault_after_completed_step_of_same_run_call", "fault_not_an_Exception_subclass"],
  },
 }
 
@@ -605,33 +607,64 @@ class SeqChooser:
         return order
 
 
-def do_step(bk, mode, cap=40):
-    """One caller-level step on a real stepper.  Returns (events, outcome)."""
+def step_iter(bk, mode, cap=40):
+    """One caller-level operation on a real stepper as a coroutine: yields after every event it
+    receives (so that two steppers can be advanced alternately) and returns (events, outcome).
+    mode: "single" | "run1" | ("run", M)."""
+    from simdag.core.outcome import RunTimeout
     events = []
     obj = bk.obj
     try:
         if mode == "single":
             for ev in obj.run_single_step():
                 events.append(bk.events_of(ev))
+                yield
             return events, "completed"
-        gen = obj.run(max_steps=1)
+        gen = obj.run(max_steps=1 if mode == "run1" else mode[1])
         for ev in gen:
             events.append(bk.events_of(ev))
-            if events[-1][0] == "failed":
+            if events[-1][0] in ("failed", "completed"):
                 # the generator is suspended between two steps: a step boundary
                 bk.boundary = ({k: (v.copy() if isinstance(v, np.ndarray) else v)
                                 for k, v in bk.persistent().items()}, obj.next_phase)
             if len(events) >= cap:
                 gen.close()
                 return events, "cap"
+            yield
         return events, "run-done"
     except bk.FailStep:
         return events, "failed"
     except bk.Transition as e:
         obj.next_phase = e.next_phase
         return events, "completed"
-    except Exception as e:
+    except (Violation, Discard, RunTimeout, GeneratorExit):
+        raise
+    except BaseException as e:
         return events, ("exc", e)
+
+
+def do_step(bk, mode, cap=40):
+    """Drives step_iter to its end.  Returns (events, outcome)."""
+    it = step_iter(bk, mode, cap)
+    while True:
+        try:
+            next(it)
+        except StopIteration as stop:
+            return stop.value
+
+
+def do_step_pair(A, B, mode, cap=40):
+    """Two live steppers advanced alternately, one event each."""
+    its = [step_iter(A, mode, cap), step_iter(B, mode, cap)]
+    res = [None, None]
+    while res[0] is None or res[1] is None:
+        for i in (0, 1):
+            if res[i] is None:
+                try:
+                    next(its[i])
+                except StopIteration as stop:
+                    res[i] = stop.value
+    return res
 
 
 def _desc(deps_idx, f):
@@ -682,11 +715,15 @@ def run_c11(ctx):
         fmap = {fn: table.wrap(fn, sc.func_impl(fn)) for fn in sc.funcs}
         bk = InterpBackend(code_sim, fmap) if kind == "interpreter" else GenBackend(b.cls, b.nmgr, fmap)
         bk.table = table
+        # every stepper is set up through the public set_up() first (it may initialise internals);
+        # install() then overwrites the variable store and the phase
+        bk.set_up(sc.t0, sc.dt0, sc.state0)
         return bk
 
     with tape.span("plan"):
         pre_steps = tape.draw(4, "pre_steps")
-        step_mode = ["single", "run1"][tape.draw(2, "step_mode")]
+        step_mode = ["single", "run1", ("run", 2), ("run", 3)][tape.weighted([3, 3, 1, 1], "step_mode")]
+        interleave = tape.chance(0.3, "interleave_resumed_and_fresh")
         exc_cls = FAULT_CLASSES[tape.draw(len(FAULT_CLASSES), "exc")]
         n_after = 1 + tape.draw(3, "n_after")
         second_fault = tape.chance(0.3, "second_fault")
@@ -757,8 +794,12 @@ def run_c11(ctx):
                                     "this one ended (%r) before call %d" % (label, N, out, k), site=kind)
                 fired_any = True
                 fn_fired = A.table.fired[0]
+                if any(e[0] == "completed" for e in evs):
+                    ctx.count("probe:fault_after_completed_step_of_same_run_call")
                 ctx.count("fault:user_function_raises")
                 ctx.count("fault:exc_" + exc_cls.__name__)
+                if not issubclass(exc_cls, Exception):
+                    ctx.count("probe:fault_not_an_Exception_subclass")
                 if k == 0:
                     ctx.count("probe:fault_first_call")
                 # X1
@@ -812,13 +853,31 @@ def run_c11(ctx):
                 B.install(post, A.obj.next_phase)
                 for oi in range(n_after):
                     results = []
-                    for S in (A, B):
-                        chooser.reset()
-                        S.table.new_step()
-                        if second_fault and oi == 0:
-                            S.table.arm(0, exc_cls("second fault"))
-                        results.append(do_step(S, step_mode if oi % 2 == 0 else "single"))
-                        S.table.disarm()
+                    mode_oi = step_mode if oi % 2 == 0 else "single"
+                    if interleave:
+                        # the resumed stepper and its fresh twin are alive at the same time and are
+                        # advanced alternately (fixed iteration orders: they share one chooser)
+                        was = chooser.enabled
+                        chooser.enabled = False
+                        try:
+                            for S in (A, B):
+                                S.table.new_step()
+                                if second_fault and oi == 0:
+                                    S.table.arm(0, exc_cls("second fault"))
+                            results = do_step_pair(A, B, mode_oi)
+                            for S in (A, B):
+                                S.table.disarm()
+                        finally:
+                            chooser.enabled = was
+                        ctx.count("probe:interleaved_resumption")
+                    else:
+                        for S in (A, B):
+                            chooser.reset()
+                            S.table.new_step()
+                            if second_fault and oi == 0:
+                                S.table.arm(0, exc_cls("second fault"))
+                            results.append(do_step(S, mode_oi))
+                            S.table.disarm()
                     if second_fault and oi == 0:
                         ctx.count("probe:second_fault")
                     ctx.count("probe:resume_steps")
